@@ -21,7 +21,15 @@
     it; Unlock/Lock likewise through [mmsg] (Go memory model: a load observing a store is
     synchronized after it; the n-th Unlock is synchronized before the n+1-th Lock returns).
 
-    What the model ASSUMES about the code: pendingAdditionsPos and pendingRemovals are read and
+    ASSUMPTION "query entry points perform no unlocked writes to shared state": the only shared
+    locations the model knows are the status word, the mutex, the pending bookkeeping and the cell
+    map. That Loop/Polygon/ShapeIndex accessors and the query code write NOTHING else that is
+    shared (no memo fields such as a "last loop" hint in Polygon.Edge, no lazily filled caches
+    outside maybeApplyUpdates) is NOT a theorem here: it is exactly what the observer's -race run
+    and serial-answer comparison (shared loops, polygons with more than 12 loops, indexes; built
+    and unbuilt) and its cell-map write counters check on every run.
+
+    What the model further ASSUMES about the code: pendingAdditionsPos and pendingRemovals are read and
     written only between Lock and Unlock (applyUpdatesInternal; the early return for "nothing
     pending" writes neither); the shapes map and the vertices are not written while readers run
     (read-only use); Add/Remove/Reset are not concurrent with queries. Definitions only. *)
